@@ -61,6 +61,9 @@ func checkC08(c *Ctx) {
 	c.Rule("C08-R12", "Resize preserves the overlapping region, locks included: the cells that survive carry their lock flag into the new array (a surviving cell that comes out unlocked reports dirty although nothing was unlocked; = C13-R6)")
 	c.Expect("C08-R12", 2)
 	c.asRule("C13-R6", "C08-R12", func() { c13LockOwnership(c, p) })
+	c.Rule("C08-R13", "the reported width is that of the rune under the setting tcell chooses at init: a width table built from the runewidth condition (CreateLUT) freezes the East Asian setting of that moment, so it is built only after the setting was decided")
+	c.Expect("C08-R13", 1)
+	checkWidthTableAfterSetting(c, p, "C08-R13")
 	ms := cbMethods(p)
 	for _, need := range []string{"SetContent", "GetContent", "Dirty", "SetDirty", "Invalidate", "Resize", "Fill", "LockCell", "UnlockCell"} {
 		if ms[need] == nil {
